@@ -383,7 +383,7 @@ Definition dump_all (el : elfio) : res elfio :=
 
 Fixpoint list_max (l : list N) : N := match l with [] => 0 | x :: t => N.max x (list_max t) end.
 
-Definition step1 (w : world) (o : op) : res (world * list obs) :=
+Definition step0 (w : world) (o : op) : res (world * list obs) :=
   let el := w_el w in
   let mkWorld := keep w in
   match o with
@@ -854,6 +854,48 @@ Definition step1 (w : world) (o : op) : res (world * list obs) :=
   | OpQueryAll | OpQueryAll18 => Ok (w, [])      (* expanded by [step] below *)
   | OpMoveCtor _ _ | OpMoveAssign _ _ | OpDestroy _ => Ok (w, [])   (* handled by [step_world] *)
   end.
+
+(* Every accessor operation that ADDS to a section goes through section::append_data(), which (since the C07 fix)
+   first brings the data of a lazily loaded section into memory.  That request is made here, before the operation,
+   for the sections the operation appends to, in the order the library touches them. *)
+Definition pre_secs (w : world) (o : op) : list N :=
+  match o with
+  | OpStrAdd i _ => [i]
+  | OpStrAddSelf i _ => [i]
+  | OpSymAdd symsec _ _ _ _ _ _ => [symsec]
+  | OpSymAddS symsec strsec _ _ _ _ _ _ => [strsec; symsec]
+  | OpRelAdd relsec _ _ _ _ _ => [relsec]
+  | OpRelAddI relsec _ _ _ _ => [relsec]
+  | OpArrAdd sec _ _ => [sec]
+  | OpStrAddK k _ => match find_acc (w_accs w) k with Some (AStr i) => [i] | _ => [] end
+  | OpRelAddK k _ _ _ _ _ => match find_acc (w_accs w) k with Some (ARel i) => [i] | _ => [] end
+  | OpDynAdd k _ _ => match find_acc (w_accs w) k with Some (ADyn a) => [da_sec a] | _ => [] end
+  | OpDynAddS k _ _ =>
+      match find_acc (w_accs w) k with
+      | Some (ADyn a) =>
+          match get_sec (w_el w) (da_sec a) with
+          | Some s => [wrap16 (sh_link s); da_sec a]
+          | None => []
+          end
+      | _ => []
+      end
+  | OpNoteAdd k _ _ _ =>
+      match find_acc (w_accs w) k with Some (ANote a) => match na_target a with NoteSec i => [i] | _ => [] end | _ => [] end
+  | _ => []
+  end.
+
+Definition prefetch (el : elfio) (i : N) : res elfio :=
+  match get_sec el i with
+  | None => Ok el
+  | Some s0 =>
+      if negb (sh_type s0 =? SHT_NOBITS) && s_lazy s0 && negb (s_loaded s0)
+      then '(el1, _) <- el_sec_get_data junk0 el i ;; Ok el1
+      else Ok el
+  end.
+
+Definition step1 (w : world) (o : op) : res (world * list obs) :=
+  el1 <- fold_left (fun acc i => e <- acc ;; prefetch e i) (pre_secs w o) (Ok (w_el w)) ;;
+  step0 (keep w el1) o.
 
 (* composite operations keep the observations made before a fault *)
 Definition pres := (world * list obs * option fault)%type.
